@@ -95,16 +95,20 @@ Theorem C20_bswap :
 Proof. exact bswap_final. Qed.
 Print Assumptions C20_bswap.
 
-(** PARTIAL.  Full statement: popcount_generic8/16/32/64 x = popcount_spec x for every value of the respective width
-    (popcount_spec = number of one digits; the intrinsic overloads are modelled by popcount_spec).  Proved: the 8- and
-    16-bit functions (exhaustive vm_compute sweep).  Missing: the 32- and 64-bit SWAR popcount (byte-slicing lemmas not
-    done); they are tied to the real code, the intrinsics and the arbitrary-precision reference by the correspondence
-    run (structured/random values; all 2^32 values of popcount_generic32 in the thorough tier). *)
-Theorem C20_popcount_partial : forall x,
-  (inrange u8 x = true -> popcount_generic8 x = popcount_spec x) /\
-  (inrange u16 x = true -> popcount_generic16 x = popcount_spec x).
-Proof. exact popcount_partial. Qed.
-Print Assumptions C20_popcount_partial.
+(** popcount: the SWAR fall-backs popcount_generic8/16/32/64 return the number of one bits of every value of their
+    width (8/16 bit: exhaustive sweep; 32/64 bit: every stage acts byte-wise on the base-256 digits -- shift-and-mask
+    never mixes bytes, the additions never carry across a byte -- a sweep over the 256 values of one byte shows that
+    after three stages each byte holds its own popcount, and the final multiplication adds the bytes in the top byte);
+    the intrinsic overloads are specified by the same count, which is the number of set bits. *)
+Theorem C20_popcount :
+  (forall x, inrange u8 x = true -> popcount_generic8 x = popcount_spec x) /\
+  (forall x, inrange u16 x = true -> popcount_generic16 x = popcount_spec x) /\
+  (forall x, 0 <= x < 2 ^ 32 -> popcount_generic32 x = popcount_spec x) /\
+  (forall x, 0 <= x < 2 ^ 64 -> popcount_generic64 x = popcount_spec x) /\
+  (forall t x, popcount_intrinsic t x = popcount_spec (pattern t x)) /\
+  (forall p n, (Pos.size_nat p <= n)%nat -> popcount_spec (Zpos p) = count_bits n (Zpos p)).
+Proof. exact popcount_final. Qed.
+Print Assumptions C20_popcount.
 
 (** Aggregate (exact arithmetic): after ANY history of add / operator+ / operator+= / reset over any number of
     Aggregate variables, every variable has the same count, mean, nvar (hence variance), min and max as one Aggregate
